@@ -132,6 +132,30 @@ def main(argv):
             print("xcheck: %d outputs, plain(-O2, libgomp, 1 thread) vs sim/simtrace(team 1): %s" % (len(keys), "BIT-IDENTICAL" if not diff else "DIFFER at %s" % diff[:5]))
             if diff:
                 bad += 1
+        # the simulated runtime against a small OpenMP program with known answers (sections,
+        # parallel sections, single, tasks, taskgroup, guided/runtime ull loops, atomics)
+        from cidersim import build as _b
+
+        bd = _b.build("sim")
+        exe = os.path.join(d, "rt_selftest")
+        cc = subprocess.run(
+            ["gcc", "-O1", "-fopenmp", "-include", "stdlib.h", os.path.join(_b.CSRC, "rt_selftest.c"), "-o", exe, "-L" + bd, "-lsimgomp", "-Wl,-rpath," + bd, "-Wl,-z,defs"],
+            capture_output=True,
+            text=True,
+        )
+        if cc.returncode != 0:
+            print("HARNESS-ERROR rt_selftest does not build: %s" % cc.stderr[-400:])
+            bad += 1
+        else:
+            nbad = 0
+            for nt in (1, 2, 3, 4, 7, 16):
+                for strat in range(7):
+                    p = subprocess.run([exe, str(nt), str(strat)], capture_output=True, text=True)
+                    if p.returncode != 0:
+                        nbad += 1
+                        print("HARNESS-ERROR rt_selftest nt=%d strategy=%d: %s" % (nt, strat, p.stdout.strip()[-200:]))
+            print("rt_selftest: 42 (team size, strategy) runs of the OpenMP construct program: %s" % ("OK" if not nbad else "%d WRONG" % nbad))
+            bad += 1 if nbad else 0
         import shutil
 
         shutil.rmtree(d, ignore_errors=True)
